@@ -61,6 +61,14 @@ def draw_graph(
     )
 
 
+def _indirect_paths(fis: FunctionInteractions) -> List[DDSPath]:
+    res: List[DDSPath] = list(fis.indirect_deps)
+    for sub_fis in fis.parsed_body:
+        if sub_fis.store_path is None:
+            res += [p for p in _indirect_paths(sub_fis) if p not in res]
+    return res
+
+
 class Node(NamedTuple):
     path: DDSPath
     node_hash: PyHash
@@ -117,7 +125,9 @@ def _structure(
             # l1: List[Node]
             # fi: FunctionInteractions
             # If it is a context-independent function, add it to the list of potential implicit dependencies
-            if len(fi.arg_input.named_args) == 0:
+            # (a call is context-dependent when at least one of its arguments is only known at run time,
+            # this is the rule used to compute its signature)
+            if all(h is not None for h in fi.arg_input.named_args.values()):
                 start_nodes += l1
             # Otherwise, there is an implicit dep: introduce a single dep here
             else:
@@ -157,8 +167,9 @@ def _structure(
                 if k not in deps or deps[k].edge_type != DirectEdge:
                     deps[k] = Edge(sub_n.path, res_node.path, DirectEdge)
                 node_deps[res_node.node_hash].update(node_deps[sub_n.node_hash])
-            # Add the indirect references
-            for p in fis_.indirect_deps:
+            # Add the indirect references (the paths loaded by the function, directly or through
+            # the functions it calls that are not nodes themselves)
+            for p in _indirect_paths(fis_):
                 assert p in all_refs, p
                 sig2 = all_refs[p]
                 if sig2 not in nodes:
